@@ -105,6 +105,9 @@ class RefSeq:
                     self.push_targets.add(self._root_name(n.target))
                 if isinstance(n, ast.Assign) and len(n.targets) == 1 and isinstance(n.targets[0], ast.Attribute) and n.targets[0].attr == "push":
                     self.push_targets.add(self._root_name(n.targets[0].value))
+                if isinstance(n, ast.Call) and isinstance(n.func, ast.Attribute) and n.func.attr == "assign" and len(n.args) == 3 and \
+                        isinstance(n.args[2], ast.Attribute) and n.args[2].attr == "PUSH":
+                    self.push_targets.add(self._root_name(n.args[0]))
         self.push_targets.discard(None)
         self.pcs = [START]
         self._written = None
@@ -136,6 +139,8 @@ class RefSeq:
                 for n in ast.walk(fn):
                     if isinstance(n, ast.AugAssign):
                         w.add(self._root_name(n.target))
+                    if isinstance(n, ast.Call) and isinstance(n.func, ast.Attribute) and n.func.attr == "assign" and n.args:
+                        w.add(self._root_name(n.args[0]))
                     if isinstance(n, ast.Assign) and len(n.targets) == 1 and isinstance(n.targets[0], ast.Attribute) and n.targets[0].attr in ("next", "value", "push"):
                         w.add(self._root_name(n.targets[0].value))
                     if isinstance(n, ast.Assign) and isinstance(n.value, ast.Call) and isinstance(n.value.func, ast.Subscript) and \
@@ -204,6 +209,10 @@ class _Interp:
     # -- object access
     def read_obj(self, name):
         o = self.objs[name]
+        if o.kind == "var" and o.ty.kind == "bool":
+            # boolean variables are stored as 0/1 numbers in the environment, expressions use prelude booleans
+            x = self.var[name]
+            return RVal(BOOL, (x != 0) if not isinstance(x, bool) else x)
         if o.kind == "var":
             return RVal(o.ty, self.var[name])
         if name in self.local_now:
@@ -308,6 +317,10 @@ class _Interp:
         else:
             if o.kind != "var":
                 raise RUnsupported("value assignment to signal")
+            if o.ty.kind == "bool" and not ref.part:
+                t = self.truth(rv)
+                self.var[ref.name] = (1 if t else 0) if isinstance(t, bool) else self.P.b2i(t)
+                return
             self.var[ref.name] = self.update(self.var[ref.name], o.ty, ref.part, rv)
 
     # -- names
@@ -462,6 +475,23 @@ class _Interp:
         if fname in ("expr", "bool", "always") and len(e.args) == 1:
             r = self.deref(self.ev(e.args[0]))
             return RVal(BOOL, self.truth(r)) if fname == "bool" else r
+        if fname == "assign" and len(e.args) in (2, 3):
+            # std.assign(target, source, cohdl.AssignMode.NEXT | PUSH | VALUE | AUTO)
+            tgt = self.ev(e.args[0])
+            if not isinstance(tgt, Ref):
+                raise RUnsupported("std.assign target")
+            mode = "AUTO"
+            if len(e.args) == 3:
+                m = e.args[2]
+                if not isinstance(m, ast.Attribute):
+                    raise RUnsupported("assign mode")
+                mode = m.attr
+            o = self.objs[tgt.name]
+            mode = {"NEXT": "next", "PUSH": "push", "VALUE": "value", "AUTO": "value" if o.kind == "var" else "next"}.get(mode)
+            if mode is None:
+                raise RUnsupported("assign mode")
+            self.assign(tgt, self.deref(self.ev(e.args[1])), mode)
+            return RVal(INTT, 0)
         if fname == "range":
             args = [self.deref(self.ev(a)).v for a in e.args]
             return [RVal(INTT, i) for i in range(*args)]
